@@ -10,6 +10,7 @@ Every item TRANSLATES a piece of the current source into a Lean term (never comp
   coordinates.make_xy_grid         -> xyGridElem, gridX / gridY (meshgrid route), vecX / vecY (grid=False),
                                       xyScalarShape0/1 (scalar shape), xyDxOfDiameter
   fttools.forward_ft_unit          -> ftUnitNum shift n i, composed of the NumPy helpers below
+  propagation.focus / unfocus      -> focusPre / focusPost / unfocusPre / unfocusPost (roll amounts around the FFT)
   numpy.fft fftfreq/fftshift/ifftshift (NumPy's own _helper.py) -> npFftfreqSplit / P1Lo / P2Lo, npFftshiftBy, npIfftshiftBy
   RichData.x / .y getters          -> richX / richY  (which return value of make_xy_grid is cached where)
   RichData.slices                  -> slicesXVec / slicesYVec (x[0], y[..., 0] and which is passed as x= / y=)
@@ -572,6 +573,29 @@ def generate(repo):
                 f'  if shift then {vec(the_return(on))} else {vec(the_return(off))}')
     g.item('forward_ft_unit', 'prysm/fttools.py:forward_ft_unit', lambda: get_def(ft, 'forward_ft_unit'), ft_unit,
            f'def ftUnitNum (shift : Bool) (n i : Int) : Int := {M}.ftUnitNumS shift n i')
+
+    # ---- propagation.focus / unfocus: roll amounts applied before and after the FFT (in terms of NumPy's translated constants)
+    def fft_route():
+        out = []
+        by = {'fftshift': 'npFftshiftBy', 'ifftshift': 'npIfftshiftBy'}
+        for fname, want in (('focus', 'fft2'), ('unfocus', 'ifft2')):
+            fn = get_def(pr, fname)
+            chains = []
+            for c in ast.walk(fn):
+                if isinstance(c, ast.Call) and last_attr(c.func) in by and len(c.args) == 1 and isinstance(c.args[0], ast.Call) \
+                        and last_attr(c.args[0].func) in ('fft2', 'ifft2', 'fftn', 'ifftn'):
+                    mid = c.args[0]
+                    if mid.args and isinstance(mid.args[0], ast.Call) and last_attr(mid.args[0].func) in by \
+                            and len(mid.args[0].args) == 1:
+                        chains.append((last_attr(mid.args[0].func), last_attr(mid.func), last_attr(c.func)))
+            if len(chains) != 1 or chains[0][1].replace('n', '2') != want:
+                raise Untranslatable(f'{fname}: shift(fft(shift(x))) chain not found')
+            pre, _, post = chains[0]
+            out.append(f'def {fname}Pre (dim : Int) : Int := {by[pre]} dim\ndef {fname}Post (dim : Int) : Int := {by[post]} dim')
+        return '\n'.join(out)
+    g.item('focus.shifts', 'prysm/propagation.py:focus,unfocus', lambda: get_def(pr, 'focus'), fft_route,
+           '\n'.join(f'def {f}Pre (dim : Int) : Int := {M}.npIfftshiftBy dim\ndef {f}Post (dim : Int) : Int := {M}.npFftshiftBy dim'
+                     for f in ('focus', 'unfocus')))
 
     # ---- RichData.x / .y getters: which return value of make_xy_grid((m, n), dx=dx) is cached and handed out
     def rich_xy():
